@@ -150,8 +150,9 @@ func runC03(c *Ctx) {
 	P, R := c.P, c.R
 	R.Require("C03.dispatch-cmd", 2)
 	R.Require("C03.dispatch-type", 6)
-	R.Require("C03.txn", 4)
+	R.Require("C03.txn", 5)
 	R.Require("C03.order", 8)
+	R.Require("C03.wait", 3)
 	for _, f := range P.ModuleFuncs("rtmp") {
 		R.Funcs[core.QualName(f)] = true
 	}
@@ -316,12 +317,113 @@ func runC03(c *Ctx) {
 	checkTxn(c, "C03.txn")
 	checkResponseTable(c, parse, cmdOf)
 
+	// ---- C03.wait: the typed waits examine every message they read
+	checkWaits(c)
+
 	// ---- C03.order
 	checkMarshalOrder(c, pts)
 
 	// ---- C03.size / C03.ctl (abstract interpretation)
 	if absC03 != nil {
 		absC03(c)
+	}
+}
+
+// checkWaits: in ExpectPacket every successfully read message is decoded and its type compared
+// before the next read or a successful return; in ExpectMessage every read message's type is
+// compared with the requested types.
+func checkWaits(c *Ctx) {
+	P, R := c.P, c.R
+	isCallTo := func(in ssa.Instruction, name string) bool {
+		call, ok := in.(*ssa.Call)
+		return ok && call.Call.StaticCallee() != nil && core.FuncName(call.Call.StaticCallee()) == name
+	}
+	for _, w := range []struct{ fn, must, what string }{
+		{"(*Protocol).ExpectPacket", "(*Protocol).DecodeMessage", "decoded"},
+	} {
+		fn := P.Func("rtmp", w.fn)
+		if !R.Anchor(fn != nil, "C03.wait", "rtmp."+w.fn) {
+			continue
+		}
+		n := 0
+		core.EachInstr(fn, func(in ssa.Instruction) {
+			if !isCallTo(in, "(*Protocol).ReadMessage") {
+				return
+			}
+			call := in.(*ssa.Call)
+			E, _ := errValueOf(call)
+			if E == nil {
+				return
+			}
+			// success edge of the error test
+			for _, r := range *E.Referrers() {
+				bo, ok := r.(*ssa.BinOp)
+				if !ok {
+					continue
+				}
+				for _, r2 := range *bo.Referrers() {
+					iff, ok := r2.(*ssa.If)
+					if !ok {
+						continue
+					}
+					succ := iff.Block().Succs[1]
+					if bo.Op.String() == "==" {
+						succ = iff.Block().Succs[0]
+					}
+					n++
+					// every path from the success edge to the next ReadMessage or to a return passes the decode
+					seen := map[*ssa.BasicBlock]bool{}
+					bad := ""
+					var walk func(b *ssa.BasicBlock)
+					walk = func(b *ssa.BasicBlock) {
+						if seen[b] || bad != "" {
+							return
+						}
+						seen[b] = true
+						for _, x := range b.Instrs {
+							if isCallTo(x, w.must) {
+								return
+							}
+							if isCallTo(x, "(*Protocol).ReadMessage") {
+								bad = "the next ReadMessage at " + P.InstrPos(x)
+								return
+							}
+							if ret, ok := x.(*ssa.Return); ok {
+								bad = "the return at " + P.InstrPos(ret)
+								return
+							}
+						}
+						for _, s2 := range b.Succs {
+							walk(s2)
+						}
+					}
+					walk(succ)
+					R.Check(bad == "", "C03.wait", fmt.Sprintf("rtmp|%s|every-message-%s#%d", w.fn, w.what, n), P.InstrPos(call),
+						"every message read by the typed wait is "+w.what+" before the next read or return",
+						"a message read by the typed wait can reach "+bad+" without being "+w.what+": a packet of the requested type would be skipped", nil)
+				}
+			}
+		})
+		// the decoded packet's type is compared with the requested type
+		cmp := false
+		core.EachInstr(fn, func(in ssa.Instruction) {
+			if call, ok := in.(*ssa.Call); ok && call.Call.IsInvoke() && call.Call.Method.Name() == "AssignableTo" {
+				cmp = true
+			}
+		})
+		R.Check(cmp, "C03.wait", "rtmp|"+w.fn+"|type-compared", P.Pos(fn.Pos()),
+			"the decoded packet's dynamic type is compared with the requested type", "the decoded packet's type is never compared with the requested type", nil)
+	}
+	if fn := P.Func("rtmp", "(*Protocol).ExpectMessage"); R.Anchor(fn != nil, "C03.wait", "rtmp.(*Protocol).ExpectMessage") {
+		cmp := false
+		core.EachInstr(fn, func(in ssa.Instruction) {
+			if bo, ok := in.(*ssa.BinOp); ok && bo.Op.String() == "==" &&
+				(strings.HasSuffix(core.Path(bo.X), ".MessageType") || strings.HasSuffix(core.Path(bo.Y), ".MessageType")) && core.InLoop(bo.Block()) {
+				cmp = true
+			}
+		})
+		R.Check(cmp, "C03.wait", "rtmp|(*Protocol).ExpectMessage|type-compared", P.Pos(fn.Pos()),
+			"each read message's type is compared with every requested type", "ExpectMessage does not compare the read message's type with the requested types", nil)
 	}
 }
 
